@@ -10,6 +10,11 @@ import rel
 from common import harness, seed, tlc, tlc_ok
 
 
+def pname(t, i):
+    """property i of type t: exact names are unique, the names of types 1/2 and of types 3/4 are equal ignoring case"""
+    return ("P" if t % 2 else "p") + "%d_%d" % ((t + 1) // 2, i)
+
+
 def render(g, order):
     out = ["JSIGHT 0.3", ""]
     for t in order:
@@ -27,17 +32,17 @@ def render(g, order):
             how, to, to2 = p["how"], p["to"], p["to2"]
             comma = "," if i < len(props) else ""
             if how == "ref":
-                line = '  "p%d_%d": @t%d%s' % (t, i, to, comma)
+                line = '  "%s": @t%d%s' % (pname(t, i), to, comma)
             elif how == "arr":
-                line = '  "p%d_%d": [@t%d]%s' % (t, i, to, comma)
+                line = '  "%s": [@t%d]%s' % (pname(t, i), to, comma)
             elif how == "opt":
-                line = '  "p%d_%d": @t%d%s // {optional: true}' % (t, i, to, comma)
+                line = '  "%s": @t%d%s // {optional: true}' % (pname(t, i), to, comma)
             elif how == "or":
-                line = '  "p%d_%d": @t%d | @t%d%s' % (t, i, to, to2, comma)
+                line = '  "%s": @t%d | @t%d%s' % (pname(t, i), to, to2, comma)
             elif how == "ainh":
-                line = '  "p%d_%d": [\n    { // {allOf: "@t%d"}\n      "nk": 1\n    }\n  ]%s' % (t, i, to, comma)
+                line = '  "%s": [\n    { // {allOf: "@t%d"}\n      "nk": 1\n    }\n  ]%s' % (pname(t, i), to, comma)
             else:
-                line = '  "p%d_%d": %d%s' % (t, i, i, comma)
+                line = '  "%s": %d%s' % (pname(t, i), i, comma)
             out.append(line)
         out.append("}")
         out.append("")
@@ -144,7 +149,7 @@ def run(chk, tier, pid):
                 sig = {"what": "allof cycle accepted", "variant": "typegraph"}
             elif m["verdict"] == "unjudged" and o["outcome"] == "ok":
                 for t in ids:
-                    want = [("p%d_%d" % (c["owner"], c["idx"]), "@t%d" % c["inh"] if c["inh"] else "") for c in m["props"][t - 1]]
+                    want = [(pname(c["owner"], c["idx"]), "@t%d" % c["inh"] if c["inh"] else "") for c in m["props"][t - 1]]
                     got = children_of(o["json"], t)
                     if got != want:
                         bad = "children of @t%d differ from the rule: expected %s, observed %s" % (t, want, got)
@@ -154,8 +159,8 @@ def run(chk, tier, pid):
                     for i, p in enumerate(m["g"][t - 1]["props"], 1):
                         if p["how"] != "ainh":
                             continue
-                        wantn = [("p%d_%d" % (c["owner"], c["idx"]), "@t%d" % p["to"]) for c in m["props"][p["to"] - 1]] + [("nk", "")]
-                        gotn = item_children(o["json"], t, "p%d_%d" % (t, i))
+                        wantn = [(pname(c["owner"], c["idx"]), "@t%d" % p["to"]) for c in m["props"][p["to"] - 1]] + [("nk", "")]
+                        gotn = item_children(o["json"], t, pname(t, i))
                         if gotn != wantn:
                             bad = "children of the array item of @t%d.p%d_%d (allOf @t%d) differ from the rule: expected %s, observed %s" % (t, t, i, p["to"], wantn, gotn)
                             sig = {"what": "inherited properties differ from the rule", "variant": "typegraph-array-item"}
@@ -189,7 +194,7 @@ def replay(chk, pid, rp):
             bad = "inheritance cycle accepted"
         elif sp["verdict"] == "unjudged" and b["outcome"] == "ok":
             for t in (1, 2, 3, 4):
-                want = [("p%d_%d" % (c["owner"], c["idx"]), "@t%d" % c["inh"] if c["inh"] else "") for c in sp["props"][t - 1]]
+                want = [(pname(c["owner"], c["idx"]), "@t%d" % c["inh"] if c["inh"] else "") for c in sp["props"][t - 1]]
                 if children_of(b["json"], t) != want:
                     bad = "children of @t%d: expected %s observed %s" % (t, want, children_of(b["json"], t))
                     break
